@@ -88,11 +88,13 @@ type imp struct {
 // the property statements against the code; every line names the clause it serves).
 var propImports = map[string][]imp{
 	"C01": {
+		{"C01.13/request-id-marker", "C03", "every request id carries the bit that ends the backtrace: without it the REP side takes payload words for routing data and the application sees a truncated body", []string{"C03.12/id-end-marker"}},
 		{"C01.12/limit-read-per-connection", "C16", "the receive limit a message is checked against is the one configured when its connection is accepted: a stale limit drops messages the property says are delivered", []string{"C16.11/limit-read-per-connection"}},
 	},
 	"C02": {
 		{"C02.8/E3", "C11", "PAIR admission and PUSH scheduling state (and the core attach/detach flags they are driven by) is read and written under its lock: a detach decided on a stale flag never tells the protocol its peer has gone", []string{"C11.1/E3|internal/core", "C11.1/E3|protocol/xpair", "C11.1/E3|protocol/xpush", "C11.1/E3|protocol/xpull"}},
 		{"C02.9/ownership", "C17", "a message accepted for delivery is neither released twice nor shared with a later one (no duplication, loss or reordering through a recycled buffer)", []string{"C17.5/send-contract", "C17.1/E5|protocol/xpair", "C17.1/E5|protocol/xpush", "C17.1/E5|protocol/xpull", "C17.1/E5|transport"}},
+		{"C02.11/wakers", "C14", "the PUSH scheduler is woken by every pipe that becomes ready (a conditional wake-up strands queued messages)", []string{"C14.8/wakers-complete|protocol/xpush"}},
 		{"C02.10/lifecycle", "C13", "the protocol is told of every arrival and departure exactly once: a second peer is admitted once the first has gone", []string{"C13.1/addPipe", "C13.2/detached", "C13.3/once-each"}},
 	},
 	"C03": {
@@ -100,26 +102,33 @@ var propImports = map[string][]imp{
 		{"C03.11/E3", "C11", "request state is accessed under the socket lock", []string{"C11.1/E3|protocol/req", "C11.1/E3|protocol/xreq"}},
 	},
 	"C04": {
+		{"C04.16/send-contract", "C17", "the request kept for retransmission is not released by a failed transmission (the re-send must be byte-identical)", []string{"C17.5/send-contract|transport"}},
 		{"C04.14/id-table", "C03", "only the request path registers and clears ids", []string{"C03.2/id-table-writers"}},
 		{"C04.15/E3", "C11", "request state is accessed under the socket lock", []string{"C11.1/E3|protocol/req"}},
 	},
 	"C05": {
+		{"C05.15/request-id-marker", "C03", "the id word that ends the backtrace is recognisable", []string{"C03.12/id-end-marker"}},
 		{"C05.13/E3", "C11", "routing state is accessed under the socket lock", []string{"C11.1/E3|protocol/rep", "C11.1/E3|protocol/respondent", "C11.1/E3|protocol/xrep", "C11.1/E3|protocol/xrespondent"}},
 		{"C05.14/ownership", "C17", "the saved route and the reply are not aliased with recycled buffers", []string{"C17.1/E5|protocol/rep", "C17.1/E5|protocol/respondent", "C17.1/E5|protocol/xrep", "C17.1/E5|protocol/xrespondent"}},
 	},
 	"C06": {
+		{"C06.12/send-contract", "C17", "a message shared by all subscriber pipes is released once per pipe, also when a write fails", []string{"C17.5/send-contract|transport"}},
 		{"C06.10/queue-sizing", "C19", "a context's queue and the length recorded for it agree, and a new context starts from the socket's: unsubscribe rebuilds the queue from the recorded length and re-queues under the lock", []string{"C19.4/inheritance|protocol/sub", "C19.6/queue-length-agrees|protocol/sub", "C19.6/queue-length-agrees|protocol/xsub", "C19.6/queue-length-agrees|protocol/xpub"}},
 		{"C06.11/E3", "C11", "subscription state is accessed under the socket lock", []string{"C11.1/E3|protocol/sub", "C11.1/E3|protocol/xsub", "C11.1/E3|protocol/xpub"}},
 	},
 	"C07": {
+		{"C07.17/fresh-backing", "C17", "each survey's backtrace lives in memory of its own", []string{"C17.7/fresh-backing-per-message|protocol/xrespondent", "C17.7/fresh-backing-per-message|protocol/respondent", "C17.7/fresh-backing-per-message|protocol/xsurveyor", "C17.7/fresh-backing-per-message|protocol/surveyor"}},
 		{"C07.15/queue-sizing", "C19", "every connected respondent is sent each survey, queue space permitting: the space is the configured one", []string{"C19.6/queue-length-agrees|protocol/surveyor", "C19.6/queue-length-agrees|protocol/xsurveyor", "C19.6/queue-length-agrees|protocol/respondent", "C19.6/queue-length-agrees|protocol/xrespondent", "C19.4/inheritance|protocol/surveyor", "C19.4/inheritance|protocol/respondent"}},
 		{"C07.16/E3", "C11", "survey state is accessed under the socket lock", []string{"C11.1/E3|protocol/surveyor", "C11.1/E3|protocol/xsurveyor", "C11.1/E3|protocol/respondent", "C11.1/E3|protocol/xrespondent"}},
 	},
 	"C08": {
+		{"C08.12/queue-sizing", "C19", "the per-peer send queue has the configured length (messages fitting it are not dropped)", []string{"C19.6/queue-length-agrees|protocol/xbus", "C19.6/queue-length-agrees|protocol/xstar"}},
 		{"C08.10/id-nonzero", "C13", "BUS uses id 0 for 'no source pipe': a pipe must never get it", []string{"C13.8/allocator"}},
 		{"C08.11/E3", "C11", "peer tables are accessed under the socket lock", []string{"C11.1/E3|protocol/xbus", "C11.1/E3|protocol/xstar"}},
 	},
 	"C09": {
+		{"C09.11/forwarded-message-intact", "C17", "a message handed back to the forwarder after a failed send is unchanged (a retry routes by the same header)", []string{"C17.5/send-contract|protocol/x", "C17.1/E5|protocol/xrep", "C17.1/E5|protocol/xreq", "C17.1/E5|protocol/xrespondent", "C17.1/E5|protocol/xsurveyor"}},
+		{"C09.10/ttl-read-at-use", "C19", "the hop limit applied to a message is the one in force when the message arrived", []string{"C19.9/options-read-at-use|.ttl"}},
 		{"C09.9/star-forward", "C08", "a STAR node forwards a private copy with the hop header intact whatever the local application does with its own copy", []string{"C08.4/star-forward"}},
 	},
 	"C10": {
@@ -129,6 +138,7 @@ var propImports = map[string][]imp{
 		{"C11.9/ownership", "C17", "concurrent users of one socket never end up holding the same message or buffer", []string{"C17.1/E5", "C17.5/send-contract", "C17.7/fresh-backing-per-message"}},
 	},
 	"C12": {
+		{"C12.12/lock-order", "C11", "no two paths take the same two locks in opposite orders (a deadlock wedges every later call)", []string{"C11.2/E2"}},
 		{"C12.10/queue-sizing", "C19", "queue and recorded length agree wherever a queue is built: a rebuild that re-queues under the lock into a smaller queue wedges the socket", []string{"C19.6/queue-length-agrees"}},
 		{"C12.11/redial", "C14", "losing or failing a connection at any stage never stops a dialer from redialling", []string{"C14.2/backoff", "C14.5/redial-after-loss"}},
 	},
@@ -140,10 +150,19 @@ var propImports = map[string][]imp{
 		{"C14.7/registration", "C10", "a dialer is registered with its socket, or refused, atomically with the socket's closed state: a dialer added to a closed socket keeps dialling for ever", []string{"C10.3/socket-close|NewDialer", "C10.10/E3b|internal/core.(*socket).NewDialer", "C10.10/E3b|internal/core.(*dialer)"}},
 	},
 	"C16": {
+		{"C16.16/no-cross-peer-pollution", "C17", "nothing one peer sends can end up in state kept for another peer (saved routes are private copies)", []string{"C17.1/E5|protocol/"}},
 		{"C16.13/channel-typestate", "C11", "no send can reach a channel that a concurrent close may already have closed (a send on a closed channel panics the process): responses for a survey being retired, messages for a pipe being removed", []string{"C11.4/E10b", "C11.4/E10a"}},
+		{"C16.15/ws-limit-applied", "C19", "the configured receive limit reaches SetReadLimit on both the dialing and the accepting side", []string{"C19.12/option-type-agreement|MAX-RCV-SIZE"}},
 		{"C16.14/websocket-handshake", "C15", "a websocket peer whose sub-protocol is not exactly the expected name is refused", []string{"C15.5/websocket"}},
 	},
+	"C15": {
+		{"C15.9/send-contract", "C17", "the frame is written from the message's own buffers: they are not released before or regardless of the write", []string{"C17.5/send-contract|transport", "C17.1/E5|transport"}},
+	},
+	"C17": {
+		{"C17.8/api-copies", "C01", "Recv hands out a copy of the body whatever its size; the message goes back to the pool", []string{"C01.8/api-copies"}},
+	},
 	"C18": {
+		{"C18.11/no-wait-under-lock", "C12", "no blocking wait while holding a socket lock: every other call on the socket would ignore its own deadline for as long", []string{"C12.2/E4"}},
 		{"C18.10/inheritance", "C19", "a new context starts with the deadlines configured on the socket (send from send, receive from receive)", []string{"C19.4/inheritance"}},
 	},
 	"C19": {
